@@ -2,7 +2,11 @@
 use crate::common::*;
 use kvarn::prelude::*;
 
-const FILES: [(&str, &str); 7] = [
+const FILES: [(&str, &str); 10] = [
+    // a `cache` directive with a *duration* (and other keywords) after the guard
+    ("ipscachedur.html", "!> allow-ips 10.0.0.1 &> cache server:300s\nSECRET-IPSD .................................................."),
+    ("ipscacheqm.html", "!> allow-ips 10.0.0.1 &> cache server:query-matters client:full\nSECRET-IPSQ .................................................."),
+    ("hidecache.html", "!> hide &> cache server:300s\nSECRET-HIDC .................................................."),
     ("ips.html", "!> allow-ips 10.0.0.1\nSECRET-IPS .................................................."),
     ("ipscache.html", "!> allow-ips 10.0.0.1 &> cache server:full\nSECRET-IPSC .................................................."),
     ("cacheips.html", "!> cache server:full &> allow-ips 10.0.0.1\nSECRET-CIPS .................................................."),
@@ -48,7 +52,7 @@ impl Group for Hist {
         "c17.hist"
     }
     fn rule(&self) -> &'static str {
-        "fixture files `!> allow-ips 10.0.0.1`, `… &> cache server:full`, `!> cache server:full &> allow-ips …`, `!> hide`, x.private, CRLF variant, a plain file; histories of 3-10 GET/HEAD requests from 10.0.0.1 (listed) and other addresses — allowed first so that a wrongly cached positive answer would leak — for percent-encoded spellings with <= 3 encoded characters (any character incl. the dot and letters of the extension, either hex case), with Accept-Encoding / Range variation, response+file caches on/off; through handle_cache (the client address is its argument); status and content id compared with the model; oracle: the secret marker appears only in replies to the listed address and never for hidden/private files; non-trivial = a guarded file is requested by a non-listed address after a listed one"
+        "fixture files `!> allow-ips 10.0.0.1`, `… &> cache server:full`, `… &> cache server:300s`, `… &> cache server:query-matters client:full`, `!> hide &> cache server:300s`, `!> cache server:full &> allow-ips …`, `!> hide`, x.private, CRLF variant, a plain file; histories of 3-10 GET/HEAD requests from 10.0.0.1 (listed) and other addresses — allowed first so that a wrongly cached positive answer would leak — for percent-encoded spellings with <= 3 encoded characters (any character incl. the dot and letters of the extension, either hex case), with Accept-Encoding / Range variation, response+file caches on/off; through handle_cache (the client address is its argument); status and content id compared with the model; oracle: the secret marker appears only in replies to the listed address and never for hidden/private files; non-trivial = a guarded file is requested by a non-listed address after a listed one"
     }
     fn parallel(&self) -> bool {
         false
@@ -57,6 +61,9 @@ impl Group for Hist {
         let n = if ctx.mode == Mode::Quick { 500 } else { 20_000 };
         let mut v = vec![
             format!("c17.hist 1 [1@{},6@{}]", hex(b"/ipscache.html"), hex(b"/ipscache.html")),
+            format!("c17.hist 1 [1@{},6@{},1@{}]", hex(b"/ipscachedur.html"), hex(b"/ipscachedur.html"), hex(b"/ipscachedur.html")),
+            format!("c17.hist 1 [1@{},6@{}]", hex(b"/ipscacheqm.html"), hex(b"/ipscacheqm.html")),
+            format!("c17.hist 1 [1@{},6@{}]", hex(b"/hidecache.html"), hex(b"/hidecache.html")),
             format!("c17.hist 1 [6@{},6@{}]", hex(b"/secret%2Eprivate"), hex(b"/secret.privat%65")),
             format!("c17.hist 1 [1@{},6@{}]", hex(b"/cacheips.html"), hex(b"/cacheips%2ehtml")),
         ];
